@@ -38,6 +38,53 @@ def WFc (t : Tree) : Bool :=
   | leaf n _ => n == 1
   | node _ _ => WF t
 
+def nodupB : List Nat → Bool
+  | [] => true
+  | a :: r => !r.contains a && nodupB r
+
+/-- siblings have pairwise different leftmost tokens (true of every well-formed tree) -/
+def sibDistinct (t : Tree) : Bool :=
+  t.subtrees.all fun s => match s with
+    | node _ ks => nodupB (ks.map leftmost)
+    | leaf _ _ => true
+
+/-- every node carries a uid and no uid occurs twice -/
+def uidsOK (t : Tree) : Bool :=
+  t.subtrees.all (fun s => s.fields.uid.isSome) && nodupB (t.subtrees.filterMap (·.fields.uid))
+
+mutual
+/-- normal form modulo storage order: children sorted by leftmost token at every node -/
+def sortKids : Tree → Tree
+  | leaf n f => leaf n f
+  | node f ks => node f (sortBy leftmost (sortKidsL ks))
+def sortKidsL : List Tree → List Tree
+  | [] => []
+  | t :: ts => sortKids t :: sortKidsL ts
+end
+
+mutual
+/-- keep only what collapsing is documented to preserve: structure, labels, words and numbers of tokens -/
+def stripT : Tree → Tree
+  | leaf n f => leaf n { label := f.label, word := f.word }
+  | node f ks => node { label := f.label } (stripTL ks)
+def stripTL : List Tree → List Tree
+  | [] => []
+  | t :: ts => stripT t :: stripTL ts
+end
+
+mutual
+/-- no label contains the character `c` -/
+def noCharInLabels (c : Char) : Tree → Bool
+  | leaf _ f => !f.label.contains c
+  | node f ks => !f.label.contains c && noCharInLabelsL c ks
+def noCharInLabelsL (c : Char) : List Tree → Bool
+  | [] => true
+  | t :: ts => noCharInLabels c t && noCharInLabelsL c ts
+end
+
+/-- no label starts with `@` -/
+def noAtLabels (t : Tree) : Bool := t.subtrees.all fun s => s.fields.label.head? != some '@'
+
 /-- `order` lists the storage indices of `ks` by increasing leftmost token -/
 def childrenOK (ks : List Tree) (order : List Nat) : Bool :=
   -- a permutation of 0..k-1
